@@ -495,6 +495,12 @@ def check_property(opm, System, kind, case, extra):
     if kind == "purity":
         _, _, pure = code_eval(opm, System, case)
         return None if pure else ("C20:purity", f"{name}.calculate modified the System (or itself)")
+    if kind == "twins":
+        return check_twins(opm, System, case["op"], extra["opb"], case["frames"])
+    if kind == "factory":
+        return check_factory(opm, System, case["op"], case["frames"], extra.get("with_periodic", True))
+    if kind == "path":
+        return check_path(opm, System, case["op"], case["frames"])
     if kind == "history":
         return check_history(opm, System, case["op"], case["frames"])
     if kind == "calculate-order":
@@ -599,6 +605,15 @@ def check_calc_order(opm, System, case, model=None):
         if t0 != t1 or (t0 == "ok" and not same_vals(v0, v1, kinds, skip, flip=flip)):
             return (f"{name} route={rt}: vel_rev=False gives {t0} {v0}, vel_rev=True gives {t1} {v1} "
                     f"({'sign change' if flip else 'no change'} expected)")
+    # independent of the model: the engine's answer is the class's own answer on velocities times (-1)^vel_rev
+    for vr in (False, True):
+        c = reversed_vel(case) if vr else case
+        td, vd, _ = code_eval(opm, System, c)
+        for rt in ("file", "explicit"):
+            t, v, _ = res[(vr, rt)]
+            if t != td or (td == "ok" and not same_vals(v, vd, kinds, skip)):
+                return (f"{name} vel_rev={vr} route={rt}: calculate_order gives {t} {v}, but {name}.calculate on the "
+                        f"velocities times (-1)^vel_rev gives {td} {vd}")
     for vr in (False, True):
         c = reversed_vel(case) if vr else case
         mt, mv = model[vr] if model else py_pre(c, "asis")[:2]
@@ -678,18 +693,11 @@ def check_history(opm, System, op, frames, models=None):
         hist = [(f.get("mode", "new"), f["box"]) for f in frames[:j]]
         ks = kinds_of(case)
         kinds, skip = ks if ks else (["lin"] * 3, [False] * 3)
-        # fresh object, fresh System, current contents only
-        tf, vf = call_obj(build(opm, op), mk_sys(System, case))
-        # long-lived object, direct call (+ System purity)
+        # long-lived object, direct call (+ System purity); evaluated BEFORE the fresh object is created
         _install(System, direct, case, mode, fr.get("scale"))
         s = direct["s"]
         before = snapshot(s)
         tl, vl = call_obj(long_obj, s)
-        if snapshot(s) != before:
-            return ("C20:purity", f"{name}.calculate modified the System (frame {j} of a sequence, indices {op[1:-1]})")
-        if tl != tf or (tf == "ok" and not same_vals(vl, vf, kinds, skip)):
-            return (SIG_H, f"{name}: frame {j} (box {fr['box']}, {mode}) evaluated by an object that has already seen "
-                           f"{hist} gives {tl} {vl}; a fresh object on the current contents gives {tf} {vf}")
         # long-lived engine with its own buffers; in-place frames always go through the explicit-array route
         _install(System, ebuf, case, mode, fr.get("scale"))
         s2 = ebuf["s"]
@@ -704,6 +712,13 @@ def check_history(opm, System, op, frames, models=None):
             te, ve = "ok", [float(x) for x in out]
         except Exception as e:  # noqa: BLE001
             te, ve = err_kind(e), []
+        # fresh object, fresh System, current contents only
+        tf, vf = call_obj(build(opm, op), mk_sys(System, case))
+        if snapshot(s) != before:
+            return ("C20:purity", f"{name}.calculate modified the System (frame {j} of a sequence, indices {op[1:-1]})")
+        if tl != tf or (tf == "ok" and not same_vals(vl, vf, kinds, skip)):
+            return (SIG_H, f"{name}: frame {j} (box {fr['box']}, {mode}) evaluated by an object that has already seen "
+                           f"{hist} gives {tl} {vl}; a fresh object on the current contents gives {tf} {vf}")
         if te != tf or (tf == "ok" and not same_vals(ve, vf, kinds, skip)):
             return (SIG_H, f"{name}: frame {j} (box {fr['box']}, {mode}) through a long-lived engine.calculate_order "
                            f"({'explicit arrays' if explicit else 'file'}) gives {te} {ve}; a fresh object gives {tf} {vf} "
@@ -779,6 +794,219 @@ def rnd_history(rng, name, contiguous):
     return op, frames
 
 
+# --------------------------------------------------------------------------- two objects alive at once, factory, Path
+def _state(o):
+    """comparison-safe picture of an object's attributes (never raises on ndarray / None mixes)"""
+    out = {}
+    for k, v in sorted(vars(o).items()):
+        out[k] = ("nd", str(v.dtype), v.shape, v.tobytes()) if isinstance(v, np.ndarray) else ("py", repr(v))
+    return out
+
+
+def _cls_state(o):
+    """mutable class-level attributes reachable from the instance's classes"""
+    out = {}
+    for c in type(o).__mro__[:-1]:
+        for k, v in sorted(vars(c).items()):
+            if isinstance(v, (list, dict, set, np.ndarray)):
+                out[f"{c.__name__}.{k}"] = repr(v)
+    return out
+
+
+def _cmp_fresh(opm, System, o, op, fr, what):
+    case = {"op": op, "pos": fr["pos"], "vel": fr["vel"], "box": fr["box"]}
+    ks = kinds_of(case)
+    kinds, skip = ks if ks else (["lin"] * 3, [False] * 3)
+    s = mk_sys(System, case)
+    before = snapshot(s)
+    tl, vl = call_obj(o, s)          # the live object first: creating the fresh one must not be able to repair shared state
+    if snapshot(s) != before:
+        return ("C20:purity", f"{op[0]}.calculate modified the System ({what})")
+    tf, vf = call_obj(build(opm, op), mk_sys(System, case))
+    if tl != tf or (tf == "ok" and not same_vals(vl, vf, kinds, skip)):
+        return (SIG_H, f"{op[0]} {op[1:]}: {what}: gives {tl} {vl}, a fresh object alone gives {tf} {vf} (box {fr['box']})")
+    return None
+
+
+def check_twins(opm, System, opa, opb, frames):
+    """two objects of the same class (different index tuples / periodic flags) alive at once, evaluated interleaved:
+    creating or using one must not change the other (class-level or base-class attributes shared between instances)"""
+    a = build(opm, opa)
+    sa, ca = _state(a), _cls_state(a)
+    b = build(opm, opb)
+    if _state(a) != sa:
+        return (SIG_H, f"creating {opb} changed the attributes of the live object {opa}: {sa} -> {_state(a)}")
+    for j, fr in enumerate(frames):
+        for o, op, tag in ((a, opa, "A"), (b, opb, "B"), (a, opa, "A again")):
+            r = _cmp_fresh(opm, System, o, op, fr, f"object {tag} of a pair alive at once, frame {j}")
+            if r:
+                return r
+    if _cls_state(a) != ca:
+        return (SIG_H, f"class-level mutable attributes changed while evaluating: {ca} -> {_cls_state(a)}")
+    return None
+
+
+CLASSNAME = {"distance": "Distance", "distancevel": "Distancevel", "position": "Position", "velocity": "Velocity",
+             "dihedral": "Dihedral", "puckering": "Puckering"}
+DEFAULT_PERIODIC = {"distance": 1, "distancevel": 1, "dihedral": 0, "puckering": 0}
+
+
+def settings_of(op, with_periodic=True):
+    name = op[0]
+    d = {"class": CLASSNAME[name]}
+    if name == "velocity":
+        d["index"] = op[1]
+        d["dim"] = "xyz"[op[2]]
+    elif name == "position":
+        d["index"] = [op[1], op[2]]
+        d["periodic"] = False
+    else:
+        d["index"] = list(op[1:-1])
+        if with_periodic:
+            d["periodic"] = bool(op[-1])
+    return {"orderparameter": d, "simulation": {"steps": 0}}
+
+
+def check_factory(opm, System, op, frames, with_periodic=True):
+    """create_orderparameter(settings): the settings dict is not modified, two parameters created from ONE dict are
+    independent objects, each behaves like a directly constructed one (missing `periodic` = the class default)"""
+    st = settings_of(op, with_periodic)
+    keep = copy.deepcopy(st)
+    eff = list(op)
+    if not with_periodic and op[0] in DEFAULT_PERIODIC:
+        eff[-1] = DEFAULT_PERIODIC[op[0]]
+    try:
+        o1 = opm.create_orderparameter(st)
+        o2 = opm.create_orderparameter(st)
+    except Exception as e:  # noqa: BLE001
+        return ("C20:factory", f"create_orderparameter({keep['orderparameter']}) raised {err_kind(e)}: {e}")
+    if st != keep:
+        return ("C20:factory", f"create_orderparameter modified its settings: {keep['orderparameter']} -> {st['orderparameter']}")
+    if o1 is o2:
+        return ("C20:factory", "two create_orderparameter calls on one settings dict returned the same object")
+    # Distance/Distancevel/Position keep the settings' own index list (no copy is promised); that is not a
+    # violation as long as nobody writes to it — the settings comparison and the behaviour comparison below decide.
+    for j, fr in enumerate(frames):
+        for o, tag in ((o1, "first"), (o2, "second"), (o1, "first again")):
+            r = _cmp_fresh(opm, System, o, eff, fr, f"{tag} object made by create_orderparameter from one settings dict, frame {j}")
+            if r:
+                return r
+        if st != keep:
+            return ("C20:factory", f"evaluating a created parameter modified the settings dict: {keep['orderparameter']} -> {st['orderparameter']}")
+    return None
+
+
+def check_path(opm, System, op, frames):
+    """orders computed by engine.calculate_order (both routes, all returned values) stored in a Path:
+    ordermin/ordermax use the first value; Path.reverse leaves the original path alone, keeps every value of a
+    position-type parameter (frames mirrored) and recomputes velocity-type ones as calculate(frame)."""
+    from infretis.classes.path import Path
+    name = op[0]
+    o = build(opm, op)
+    table = {}
+    eng = make_engine(o, table)
+    pth = Path(maxlen=100)
+    firsts, alls = [], []
+    for j, fr in enumerate(frames):
+        case = {"op": op, "pos": fr["pos"], "vel": fr["vel"], "box": fr["box"]}
+        xyz, vel, box = fl(case["pos"]), fl(case["vel"]), _box_arr(case)
+        table[f"f{j}"] = (xyz, vel, box)
+        s = System()
+        s.config = (f"f{j}", j)
+        s.box = None
+        try:
+            with np.errstate(all="ignore"), warnings.catch_warnings():
+                warnings.simplefilter("ignore")
+                out = eng.calculate_order(s) if j % 2 == 0 else eng.calculate_order(s, xyz=xyz, vel=vel, box=box)
+        except Exception:  # noqa: BLE001
+            return None          # error cases are judged by the other predicates
+        tf, vf = call_obj(build(opm, op), mk_sys(System, case))
+        if tf != "ok" or len(out) != len(vf) or any(math.isnan(float(x)) for x in out):
+            return None
+        s.order = out
+        pth.append(s)
+        firsts.append(float(out[0]))
+        alls.append([float(x) for x in out])
+    if not firsts:
+        return None
+    nvals = {"puckering": 3}.get(name, 1)
+    if any(len(a) != nvals for a in alls):
+        return ("C20:path-order", f"{name} returned {[len(a) for a in alls]} values per frame through calculate_order, {nvals} expected")
+    mx, imx = pth.ordermax
+    mn, imn = pth.ordermin
+    if float(mx) != max(firsts) or firsts[int(imx)] != max(firsts) or float(mn) != min(firsts) or firsts[int(imn)] != min(firsts):
+        return ("C20:path-order", f"{name}: first order values {firsts}; Path.ordermax={mx, imx} ordermin={mn, imn}")
+    keep = [(list(map(float, pp.order)), pp.vel_rev, pp.vel.tobytes(), pp.pos.tobytes()) for pp in pth.phasepoints]
+    try:
+        rv = pth.reverse(o)
+    except Exception as e:  # noqa: BLE001
+        return ("C20:path-order", f"Path.reverse({name}) raised {err_kind(e)}: {e}")
+    now = [(list(map(float, pp.order)), pp.vel_rev, pp.vel.tobytes(), pp.pos.tobytes()) for pp in pth.phasepoints]
+    if now != keep:
+        return ("C20:path-order", f"Path.reverse({name}) changed the original path's frames")
+    back = [list(map(float, pp.order)) for pp in rv.phasepoints]
+    if name not in VEL_TYPE:
+        if back != alls[::-1]:
+            return ("C20:path-order", f"position-type {name}: orders {alls} became {back} after Path.reverse (mirror image expected)")
+    else:
+        for pp, b in zip(rv.phasepoints, back):
+            t, v = call_obj(build(opm, op), pp)
+            if t != "ok" or not same_vals(v, b, ["lin"] * len(b), [False] * len(b)):
+                return ("C20:path-order", f"velocity-type {name}: reversed frame stores order {b} but calculate(frame) gives {t} {v}")
+    return None
+
+
+def boundary_cases():
+    """hand-made boundary inputs: exact zeros, index 0, coincident atoms, displacements exactly at / next to half a box
+    and a whole box, planar and perpendicular dihedrals, planar ring and ideal chair, zero box, off-diagonal 9-boxes"""
+    out = []
+    Z = ["0", "0", "0"]
+    eps = Fr(1, 16)
+    for L in (Fr(4), Fr(8), Fr(6), Fr(5, 2)):
+        pow2 = L in (Fr(4), Fr(8))
+        ds = [Fr(0), L / 2 - eps, L / 2 + eps, L - eps, L, L + eps, 2 * L, -L, -(L / 2 + eps)]
+        if pow2:
+            ds += [L / 2, -L / 2, 3 * L / 2, -3 * L / 2, 5 * L / 2]
+        else:
+            ds += [L / 2, -L / 2]        # |d| > L/2 is false: never reaches rint, exact for every L
+        for d in ds:
+            for axis in range(3):
+                p1 = [S(d) if k == axis else "0" for k in range(3)]
+                for box in ([S(L)] * 3, [S(L)] * 3 + ["0"] * 6, None, [S(L)] * 3 + ["1", "0", "1/2", "0", "0", "2"]):
+                    for nm in ("distance", "distancevel"):
+                        for per in (1, 0):
+                            out.append({"op": [nm, 0, 1, per], "pos": [Z, p1], "vel": [Z, ["1", "-1/2", "1/4"]], "box": box})
+    base = {"pos": [Z, Z, ["1", "0", "0"], ["1", "1", "0"], ["0", "0", "0"], ["2", "0", "1"]],
+            "vel": [Z, Z, Z, ["0", "0", "0"], ["1", "0", "0"], Z]}
+    for box in (None, ["4", "4", "4"], ["0", "0", "0"], ["0"] * 9, ["4", "4", "4"] + ["0"] * 6):
+        for per in (1, 0):
+            out.append({"op": ["distance", 0, 1, per], **base, "box": box})        # coincident atoms at the origin
+            out.append({"op": ["distancevel", 0, 1, per], **base, "box": box})     # 0/0
+            out.append({"op": ["distancevel", 0, 2, per], **base, "box": box})     # all velocities zero
+            out.append({"op": ["dihedral", 0, 1, 2, 3, per], **base, "box": box})  # |v1| = 0
+            out.append({"op": ["dihedral", 2, 0, 1, 3, per], **base, "box": box})  # |v2| = 0
+        for d in range(-3, 3):
+            out.append({"op": ["position", 0, d], **base, "box": box})
+        for d in range(3):
+            out.append({"op": ["velocity", 0, d], **base, "box": box})
+            out.append({"op": ["velocity", 4, d], **base, "box": box})
+    # dihedrals: cis (0), trans (+-180), +-90, collinear
+    A, B, C = ["1", "1", "0"], ["1", "0", "0"], ["-1", "0", "0"]
+    for D in (["-1", "1", "0"], ["-1", "-1", "0"], ["-1", "0", "1"], ["-1", "0", "-1"], ["-2", "0", "0"], ["-1", "1", "1/1024"]):
+        for box in (None, ["16", "16", "16"], ["16", "16", "16"] + ["0"] * 6):
+            for per in (0, 1):
+                out.append({"op": ["dihedral", 0, 1, 2, 3, per], "pos": [A, B, C, D], "vel": [Z] * 4, "box": box})
+    # rings: planar hexagon (Q = 0), ideal chair, boat-like
+    hexa = [("2", "0"), ("1", "2"), ("-1", "2"), ("-2", "0"), ("-1", "-2"), ("1", "-2")]
+    for zs in (["0"] * 6, ["1/2", "-1/2", "1/2", "-1/2", "1/2", "-1/2"], ["1/2", "0", "0", "1/2", "0", "0"],
+               ["1/4", "1/8", "-1/2", "3/8", "0", "-1/4"]):
+        ring = [[x, y, z] for (x, y), z in zip(hexa, zs)]
+        for box in (None, ["16", "16", "16"], ["16", "16", "16"] + ["0"] * 6):
+            for per in (0, 1):
+                out.append({"op": ["puckering", 0, 1, 2, 3, 4, 5, per], "pos": ring, "vel": [Z] * 6, "box": box})
+    return out
+
+
 # --------------------------------------------------------------------------- run
 def run(ctx):
     opm, System = _imports()
@@ -818,6 +1046,15 @@ def run(ctx):
     for _ in range(n_gen // 4):
         c = rnd_case(rng, name=rng.choice(["distance", "distancevel", "dihedral", "puckering"]), periodic=False)
         cases.append(("rotated", rotated(c, [[S(x) for x in r] for r in rnd_rot(rng)])))
+    # 5. hand-made boundary inputs (exact zeros, half/whole box displacements, planar geometries, zero boxes, ...)
+    for c in boundary_cases():
+        cases.append(("boundary", c))
+    # 6. 9-component boxes with NON-zero off-diagonal entries: the code promises orthogonal boxes only and uses
+    #    box[:3]; the model does the same (no symmetry is claimed for such boxes)
+    for _ in range(n_gen // 10):
+        c = tie_free_case(rng, boxform="3")
+        c["box"] = c["box"] + [S(Fr(rng.randint(-8, 8), 4)) for _ in range(6)]
+        cases.append(("offdiag9", c))
     # the witness of the known defect and its 3-box twin are always part of the run
     wit = {"op": ["distancevel", 0, 1, 1], "pos": [["0", "0", "0"], ["1", "0", "0"]],
            "vel": [["0", "0", "0"], ["1", "0", "0"]], "box": ["4", "4", "4"]}
@@ -989,29 +1226,76 @@ def run(ctx):
             ctx.distinct(("history", str(op), str(frames)))
         if k == 7:
             ctx.sample({"stream": "history", "op": op, "frames": [(f["mode"], f["box"]) for f in frames]})
+    # ---- two objects alive at once, create_orderparameter, orders inside a Path
+    def guarded(fn, kind, case, extra, *args):
+        try:
+            r = fn(*args)
+        except Exception as e:  # noqa: BLE001   (a harness exception must not hide a violation behind exit 2)
+            r = ("C20:unexpected-exception", f"{kind}: the real code raised outside calculate(): {type(e).__name__}: {e}")
+        if r:
+            ctx.fail(r[0], r[1], {"kind": kind, "case": case, "extra": extra})
+        else:
+            ctx.distinct((kind, str(case), str(extra)))
+
+    for k, (op, frames) in enumerate(hist):
+        fr3 = [dict(f, mode="new") for f in frames[:3]]
+        n = len(frames[0]["pos"])
+        if (k // 6 + k) % 2 == 0 or not q:
+            opb = rnd_op(rng, n, op[0])
+            ctx.count(9, branch="twins:" + op[0])
+            guarded(check_twins, "twins", {"op": op, "frames": fr3}, {"opb": opb}, opm, System, op, opb, fr3)
+        if (k // 6 + k) % 2 == 1 or not q:
+            wp = not (op[0] in DEFAULT_PERIODIC and (k // 12) % 2 == 1)
+            ctx.count(9, branch="factory:" + op[0] + (":periodic-missing" if not wp else ""))
+            guarded(check_factory, "factory", {"op": op, "frames": fr3}, {"with_periodic": wp}, opm, System, op, fr3, wp)
+        if (k // 6 + k) % 3 == 0 or not q:
+            ctx.count(len(frames), branch="path:" + op[0])
+            guarded(check_path, "path", {"op": op, "frames": frames}, {}, opm, System, op, frames)
+    # boundary distances at exact ties / whole boxes: image shifts must not change the periodic distance
+    nb = 0
+    for stream, c in cases:
+        if stream == "boundary" and c["op"][0] == "distance" and c["op"][-1] and c["box"] and len(c["box"]) == 3 \
+                and all(Fr(x) in (Fr(4), Fr(8)) for x in c["box"]):
+            nb += 1
+            if q and nb % 3:
+                continue
+            ev("image-shift", c, {"ks": [[rng.randint(-3, 3) for _ in range(3)] for _ in c["pos"]]})
     # observation (not a failure; reported for a decision): Path.reverse(order_function) recomputes the
     # orders of velocity-dependent parameters with order_function.calculate(phasepoint), which reads
     # system.vel and ignores the vel_rev flag that reverse() has just toggled.
     try:
         from infretis.classes.path import Path
-        o = opm.Velocity(0, "x")
-        pth = Path(maxlen=10)
-        for k in range(3):
-            sy = System()
-            sy.pos = np.array([[0.0, 0, 0], [1.0 + k, 0, 0]])
-            sy.vel = np.array([[1.0 + k, 0, 0], [2.0, 0, 0]])
-            sy.box = None
-            sy.order = o.calculate(sy)
-            pth.append(sy)
-        rv = pth.reverse(o)
-        fw = [pp.order[0] for pp in pth.phasepoints][::-1]
-        bw = [pp.order[0] for pp in rv.phasepoints]
+        obs = {}
+        for label, mk_o in (("Velocity(0,'x')", lambda: opm.Velocity(0, "x")),
+                            ("Distancevel((0,1),periodic=False)", lambda: opm.Distancevel((0, 1), periodic=False))):
+            for route in ("file", "explicit"):
+                o = mk_o()
+                tab = {}
+                eng = make_engine(o, tab)
+                pth = Path(maxlen=10)
+                for k in range(3):
+                    xyz = np.array([[0.0, 0, 0], [1.0 + k, 0, 0]])
+                    vel = np.array([[1.0 + k, 0, 0], [2.0, 0, 0]])
+                    tab[f"f{k}"] = (xyz, vel, np.array([16.0, 16.0, 16.0]))
+                    sy = System()
+                    sy.config = (f"f{k}", k)
+                    sy.order = (eng.calculate_order(sy) if route == "file"
+                                else eng.calculate_order(sy, xyz=xyz, vel=vel, box=tab[f"f{k}"][2]))
+                    pth.append(sy)
+                rv = pth.reverse(o)
+                fw = [float(pp.order[0]) for pp in pth.phasepoints][::-1]
+                bw = [float(pp.order[0]) for pp in rv.phasepoints]
+                obs[f"{label} via {route}"] = {"forward_orders_mirrored": fw, "orders_after_Path.reverse": bw,
+                                               "vel_rev_after": [pp.vel_rev for pp in rv.phasepoints],
+                                               "sign_changed": all(abs(a + b) < 1e-12 for a, b in zip(fw, bw))}
         ctx.extra["path_reverse_observation"] = {
-            "forward_orders_reversed": fw, "orders_after_Path.reverse": bw,
-            "sign_changed": all(abs(a + b) < 1e-12 for a, b in zip(fw, bw)),
-            "note": "Velocity(0,'x') on a 3-frame path; the classes themselves change sign under v -> -v (theorem velocity_reversal_sign)"}
+            "cases": obs,
+            "note": "Path.reverse toggles vel_rev and recomputes velocity-dependent orders with order_function.calculate(frame), "
+                    "which reads the stored system.vel (the physical velocity at the time calculate_order ran) and ignores vel_rev: "
+                    "the recomputed orders keep their sign.  The classes themselves change sign under v -> -v "
+                    "(theorems velocity_reversal_sign, calculateOrder_vel_rev).  Reported, not counted as a failure."}
     except Exception as e:  # noqa: BLE001
-        ctx.extra["path_reverse_observation"] = "probe failed: " + err_kind(e)
+        ctx.extra["path_reverse_observation"] = "probe failed: " + err_kind(e) + ": " + str(e)
     new_assumptions = [
         "system.pos/vel are float (N,3) arrays, system.box is None or a 1-D float array (the default 3x3 zero box of a bare System() is not modelled)",
         "sqrt/arctan2/rad2deg/sin/cos and the final quotients are applied outside the Lean model (same formulas in floating point, compared at rel 1e-9; angles through sin/cos)",
@@ -1022,6 +1306,8 @@ def run(ctx):
         "there is no object state), so no separate theorem states it: its content is in the tie, which evaluates ONE long-lived object and "
         "ONE long-lived engine over sequences of systems (new Systems, the same System with new arrays, the same pos/vel/box arrays changed in place) "
         "against a fresh object and against the model per frame",
+        "boxes are orthogonal: for 9-component boxes only the first three entries are used by the code (and by the model); off-diagonal entries, zero or not, are ignored and no symmetry is claimed for triclinic cells",
+        "collinear dihedrals (|v1 x v2| or |v2 x v3| ~ 0) and planar rings (Q ~ 0) are evaluated (no exception, model/code agree on nan vs number) but their angles are not compared",
         "state kept inside an order-parameter object is not counted as modifying the System; whether it can influence a later result is decided by the history predicate",
     ]
     ctx.assumptions += [a for a in new_assumptions if a not in ctx.assumptions]
